@@ -192,6 +192,8 @@ fn run_order(fk: &Fork, order: &[usize], orphan_swap: Option<usize>, spec: &Spec
     let mut delivered: BTreeSet<usize> = fk.stem.iter().cloned().collect();
     let mut trace: Vec<String> = vec![];
     let mut orphan_used = false;
+    // blocks delivered before their parent and still waiting for it
+    let mut waiting: Vec<usize> = vec![];
     for &x in seq.iter() {
         let before = n.obs();
         seen.insert(before.digest());
@@ -216,6 +218,7 @@ fn run_order(fk: &Fork, order: &[usize], orphan_swap: Option<usize>, spec: &Spec
         }
         if !parent_known {
             orphan_used = true;
+            waiting.push(x);
             rep.outcome("orphan-delivered");
             if after.tip_hash != before.tip_hash || after.lc_index != before.lc_index {
                 rep.violate("M2/orphan-disturbed-index", format!("block {} arrived before its parent and changed tip/index ({:?})", w.blocks[x].label, trace), json!({"ctx": ctx, "trace": trace}));
@@ -272,6 +275,25 @@ fn run_order(fk: &Fork, order: &[usize], orphan_swap: Option<usize>, spec: &Spec
                 rep.outcome("longer-but-lighter-offered");
             } else if longer && valid && heavy && !dense {
                 rep.outcome("longer-but-sparse-offered");
+            }
+        }
+        // M3 for a chain completed out of order: x is the parent a waiting block was missing. On a
+        // node that has completed its initial loading the waiting block is kept in the queue and
+        // must be taken up with its parent: if the chain ending in it is eligible, it is the tip
+        if !spec.loading {
+            if let Some(pos) = waiting.iter().position(|&o| w.blocks[o].parent == Some(x)) {
+                let y = waiting.remove(pos);
+                let ca = common_ancestor(w, tip_before, y);
+                let longer = w.blocks[y].id > w.blocks[tip_before].id;
+                let heavy = seg_bf(w, ca, y) >= seg_bf(w, ca, tip_before);
+                let valid = w.path(y).iter().all(|&i| w.blocks[i].valid);
+                let dense = chain_strict_ok(w, y);
+                if longer && heavy && valid && dense && waiting.is_empty() {
+                    rep.outcome("M3-obligation:chain-completed-by-a-late-parent");
+                    if tip_after != y {
+                        rep.violate("M3/eligible-chain-not-adopted/completed-by-a-late-parent", format!("block {} was the missing parent of {}: every block of a longer, heavy-enough, valid, dense chain is delivered but the tip is {} ({:?})", w.blocks[x].label, w.blocks[y].label, w.blocks[tip_after].label, trace), json!({"ctx": ctx, "trace": trace}));
+                    }
+                }
             }
         }
         // index consistency whenever no orphan is pending
